@@ -96,7 +96,7 @@ def _only(name):
 
 def harness_specs(tier):
     runner.JOBS = min(runner.JOBS, MAX_PARALLEL_COMPILES)     # sanitizer TUs are heavy; the machine is shared
-    specs = [t['spec'] for t in tus(tier)] + [M_SPEC, CAP_SPEC] + list(_replay_specs(tier).values())
+    specs = [t['spec'] for t in tus(tier)] + [M_SPEC, CAP_SPEC] + CAPV_SPECS + list(_replay_specs(tier).values())
     return [s for s in specs if _only(s['name'])]
 
 
@@ -933,6 +933,165 @@ def gen_cap(tier, rng):
             yield c
 
 
+# ---- the same functions at view level over bounded storage at full capacity (harness/h_c02capv.cpp) --------------------
+CAPV_KINDS = {'expand_dims': 1, 'squeeze': 2, 'sliding_window': 4, 'moveaxis': 8, 'roll': 16, 'resize': 32, 'expand': 64,
+              'diagonal': 128, 'matmul': 256, 'max_pool2d': 512, 'avg_pool2d': 512}
+CAPV_TUS = {'h_c02capv_a': 1 | 2 | 4, 'h_c02capv_b': 8 | 16 | 32 | 64 | 128 | 512, 'h_c02capv_c': 256}
+CAPV_SPECS = [dict(name=n, src='h_c02capv.cpp', flavour='san-dbg', extra=['-DPROTO_VERIF_EVENTS', '-DC02V_MASK=%d' % m])
+              for n, m in CAPV_TUS.items()]
+CAPV_MODELLED = {'expand_dims', 'squeeze', 'sliding_window', 'moveaxis', 'roll', 'resize', 'expand', 'diagonal'}
+
+
+def _capv_tu(kind):
+    return next(n for n, m in CAPV_TUS.items() if m & CAPV_KINDS[kind])
+
+
+def _np_resize(x, dst):
+    out = np.empty(tuple(dst), dtype=np.int64)
+    for d in itertools.product(*[range(e) for e in dst]):
+        out[d] = x[tuple(s * i // t for s, i, t in zip(x.shape, d, dst))]
+    return out
+
+
+def _np_expand(x, axes, spacing):
+    for a, sp in zip(axes, spacing):
+        a %= x.ndim
+        t = list(x.shape)
+        t[a] = t[a] + (t[a] - 1) * sp
+        y = np.full(tuple(t), -1, dtype=np.int64)
+        sl = [slice(None)] * x.ndim
+        sl[a] = slice(None, None, sp + 1)
+        y[tuple(sl)] = x
+        x = y
+    return x
+
+
+def _np_max_pool(x, k, st, ceil):
+    H, W = x.shape[-2:]
+    oh, ow = _pool_extent(H, k[0], st[0], ceil), _pool_extent(W, k[1], st[1], ceil)
+    out = np.empty(x.shape[:-2] + (oh, ow), dtype=np.int64)
+    for i in range(oh):
+        for j in range(ow):
+            out[..., i, j] = x[..., st[0] * i: st[0] * i + k[0], st[1] * j: st[1] * j + k[1]].max(axis=(-2, -1))
+    return out
+
+
+def _cmp_shape_clean(a, b):
+    """avg_pool2d: the element type of the result is the library's business (C17); here: accepted, clean, the reference shape"""
+    return c02_clean(a) and a.split(' data=')[0] == b.split(' data=')[0]
+
+
+def known_diagonal_equal_axes(case):
+    """known finding `diagonal.equal-axes`: view::diagonal(a, offset, axis1, axis2) with axis1 and axis2 naming the SAME axis"""
+    if not case.req.startswith('capv kind=diagonal '):
+        return False
+    d = dict(kv.split('=', 1) for kv in case.req.split()[1:])
+    r = len(d['shape'].split(','))
+    return int(d['axis1']) % r == int(d['axis2']) % r
+
+
+def gen_capv(tier, rng):
+    quick = tier == 'quick'
+    seen = set()
+
+    def case(kind, kv, ref, cmp=None):
+        req = 'capv kind=%s %s' % (kind, ' '.join('%s=%s' % (k, v if isinstance(v, str) else (fmt(v) if isinstance(v, (list, tuple)) else v)) for k, v in kv))
+        if req in seen or (ref is not None and ref.size > MAX_ELEMS):
+            return None
+        seen.add(req)
+        mod = kind in CAPV_MODELLED
+        return Case(req, _capv_tu(kind), dom=mod, oracle='nothing' if ref is None else show(ref), model=mod, cmp=cmp,
+                    tags=('capv', 'capv:' + kind, 'store=sv-full', 'full-capacity'))
+
+    def iota(s, base=0):
+        return np.arange(prod(s), dtype=np.int64).reshape(tuple(s)) + base
+
+    pool = [s for s in shapes(4, 3, min_rank=1) if prod(s) <= 64]
+    pick = pool if not quick else [s for s in pool if len(s) <= 2] + rng.sample([s for s in pool if len(s) > 2], 30)
+    swv = np.lib.stride_tricks.sliding_window_view
+    for s in pick:
+        r = len(s)
+        x = iota(s)
+        # expand_dims: 1..3 axes (a rank-4 source at capacity 4 with 3 axes at capacity 3 gives the largest result: 7 axes)
+        for m in range(1, 4):
+            n = r + m
+            ax = rng.sample(range(n), m)
+            ax = [a - n if rng.random() < .4 else a for a in ax]
+            yield case('expand_dims', [('shape', s), ('axes', ax)], np.expand_dims(x, tuple(ax)))
+        yield case('squeeze', [('shape', s)], np.squeeze(x))
+        # moveaxis / roll / expand with 1..3 axes
+        for m in range(1, min(r, 3) + 1):
+            src, dst = rng.sample(range(r), m), rng.sample(range(r), m)
+            src = [a - r if rng.random() < .4 else a for a in src]
+            dst = [a - r if rng.random() < .4 else a for a in dst]
+            yield case('moveaxis', [('shape', s), ('source', src), ('destination', dst)], np.moveaxis(x, src, dst))
+        for m in range(1, 4):
+            ax = [rng.randrange(-r, r) for _ in range(m)]
+            sh = [rng.randint(-4, 4) for _ in range(m)]
+            yield case('roll', [('shape', s), ('shift', sh), ('axes', ax)], np.roll(x, tuple(sh), tuple(ax)))
+            sp = [rng.randint(0, 2) for _ in range(m)]
+            yield case('expand', [('shape', s), ('axes', ax), ('spacing', sp)], _np_expand(x, ax, sp))
+        dst = [rng.randint(1, 4) for _ in range(r)]
+        yield case('resize', [('shape', s), ('dst', dst)], _np_resize(x, dst))
+        if r >= 2:
+            a1, a2 = rng.sample(range(r), 2)
+            off = rng.randint(-2, 2)
+            b1 = a1 - r if rng.random() < .4 else a1
+            b2 = a2 - r if rng.random() < .4 else a2
+            yield case('diagonal', [('shape', s), ('offset', off), ('axis1', b1), ('axis2', b2)], np.diagonal(x, off, a1, a2))
+    # sliding windows and pooling want larger extents
+    for _ in range(60 if quick else 400):
+        r = rng.randint(1, 4)
+        s = [rng.randint(2, 4) for _ in range(r)]
+        if prod(s) > 64:
+            continue
+        x = iota(s)
+        m = rng.randint(1, 3)
+        axes = [rng.randrange(r) for _ in range(m)]
+        budget = list(s)
+        ws = []
+        for a in axes:
+            w = rng.randint(1, budget[a])
+            budget[a] -= w - 1
+            ws.append(w)
+        ax = [a - r if rng.random() < .4 else a for a in axes]
+        yield case('sliding_window', [('shape', s), ('window', ws), ('axes', ax)], swv(x, tuple(ws), tuple(ax)))
+        if r <= 3:
+            ws = [rng.randint(1, e) for e in s]
+            yield case('sliding_window', [('shape', s), ('window', ws), ('axes', 'None')], swv(x, tuple(ws)))
+        a = rng.randrange(-r, r)
+        w = rng.randint(1, s[a])
+        yield case('sliding_window', [('shape', s), ('window', w), ('scalar', 1), ('axes', a)], swv(x, w, a))
+        if r == 1:
+            yield case('sliding_window', [('shape', s), ('window', w), ('scalar', 1), ('axes', 'None')], swv(x, w))
+        if r >= 2:
+            k = [rng.randint(1, s[-2]), rng.randint(1, s[-1])]
+            st = [rng.randint(1, 3), rng.randint(1, 3)]
+            c = rng.randint(0, 1)
+            ref = _np_max_pool(x, k, st, c)
+            yield case('max_pool2d', [('shape', s), ('kernel', k), ('stride', st), ('ceil', c)], ref)
+            yield case('avg_pool2d', [('shape', s), ('kernel', k), ('stride', st), ('ceil', c)], ref, cmp=_cmp_shape_clean)
+    # matmul: every pair of ranks, both operands at full capacity
+    for ra in range(1, 5):
+        for rb in range(1, 5):
+            for _ in range(3 if quick else 12):
+                k = rng.randint(1, 3)
+                ba_ = [rng.randint(1, 2) for _ in range(max(ra - 2, 0))]
+                nb = max(rb - 2, 0)
+                bb_ = [rng.choice((e, 1)) for e in ba_[max(0, len(ba_) - nb):]]
+                bb_ = [rng.randint(1, 2) for _ in range(nb - len(bb_))] + bb_
+                A = ba_ + ([rng.randint(1, 3), k] if ra >= 2 else [k])
+                B = bb_ + ([k, rng.randint(1, 3)] if rb >= 2 else [k])
+                if prod(A) > 64 or prod(B) > 64:
+                    continue
+                yield case('matmul', [('shape', A), ('shape2', B)], np.matmul(iota(A), iota(B, 1000)))
+    # known finding diagonal.equal-axes: must be refused (NumPy: ValueError), the unchanged code builds the view
+    for s, a1, a2 in (([2, 3], 0, 0), ([3, 3], 1, -1), ([2, 2, 3], -1, 2)):
+        req = 'capv kind=diagonal shape=%s offset=0 axis1=%d axis2=%d' % (fmt(s), a1, a2)
+        yield Case(req, _capv_tu('diagonal'), dom=False, oracle='nothing', model=False,
+                   tags=('capv', 'capv:diagonal', 'known-defect-class', 'known:diagonal.equal-axes'))
+
+
 def gen_all(tier, rng):
     yield from gen_chains(tier, random.Random(rng.random()))
     sub = random.Random(rng.random())
@@ -940,6 +1099,7 @@ def gen_all(tier, rng):
     yield from gen_tree(tier, sub)
     yield from gen_assign(tier, sub)
     yield from gen_cap(tier, random.Random(sub.random()))
+    yield from (c for c in gen_capv(tier, random.Random(sub.random())) if c is not None)
     yield from gen_replay(tier, rng)
 
 
@@ -1042,7 +1202,8 @@ def _shared_pred(mod, name):
     return f
 
 
-KNOWN_PREDICATES = {'eval_fixed_buffer_numel_changes': eval_fixed_buffer_numel_changes}
+KNOWN_PREDICATES = {'eval_fixed_buffer_numel_changes': eval_fixed_buffer_numel_changes,
+                    'known_diagonal_equal_axes': known_diagonal_equal_axes}
 for _m, _names in SHARED_KNOWN.items():
     for _n in _names:
         KNOWN_PREDICATES[_m + '_' + _n] = _shared_pred(_m, _n)
